@@ -72,7 +72,12 @@ def digest(res):
     for k, v in sorted(vars(res).items()):
         if hasattr(v, "kcals") and isinstance(v.kcals, np.ndarray):
             h.update(k.encode())
-            h.update(np.ascontiguousarray(v.kcals, dtype=np.float64).tobytes())
+            for part in (v.kcals, getattr(v, "fat", None), getattr(v, "protein", None)):
+                if isinstance(part, np.ndarray):
+                    h.update(np.ascontiguousarray(part, dtype=np.float64).tobytes())
+        elif isinstance(v, np.ndarray) and v.dtype.kind == "f":
+            h.update(k.encode())
+            h.update(np.ascontiguousarray(v, dtype=np.float64).tobytes())
     for dname in ("meat_dictionary", "animal_population_dictionary"):
         for k, v in sorted(getattr(res, dname, {}).items()):
             h.update(k.encode())
@@ -80,9 +85,17 @@ def digest(res):
     return h.hexdigest()
 
 
+LIVE = {}     # one option dictionary per pool item, handed to the model itself run after run (as a loop over scenarios would)
+
+
 def run_item(i, title="c14"):
     iso, o = (POOL + BATCH_ITEMS)[i]
-    r = model.run_case(iso, copy.deepcopy(o), title=title, capture=False)
+    live = LIVE.setdefault(i, copy.deepcopy(o))
+    r = model.run_case(iso, live, title=title, capture=False, share_options=True)
+    if live != o:
+        changed = {k: (o.get(k), live.get(k)) for k in set(o) | set(live) if o.get(k) != live.get(k)}
+        LIVE[i] = copy.deepcopy(o)
+        return None, "the run changed its caller's option dictionary: %r" % changed
     if not r["ok"]:
         return None, "%s@%s: %s" % (r["exc_type"], r["exc_frame"], r["exc_msg"])
     return digest(r["result"]), None
